@@ -251,7 +251,7 @@ def p_bytes(ctx):
     results = parallel(lambda n: run_tlc_config(n, emit=True), names)
     for n, r in zip(names, results):
         stages.stage_graph_lookups(ctx, n, result=r, per_step=6, always_blocks=True,
-                                   bases=(0, core.BASES["2^64-40"]))
+                                   bases=(0, core.BASES["2^64-40"], core.TOP))
     stages.stage_graph(ctx, "Share", result=run_tlc_config("Share", emit=True, constraints=["Depth3"]))   # two intervals, one buffer
     from . import driver
     driver.stage_traces(ctx, "TraceData", n_traces=30 if ctx.quick() else 300, length=60 if ctx.quick() else 100)
